@@ -16,7 +16,7 @@ EXPLANATION = (
     "keyword->positional, index loops->element loops); private helpers are interpreted with the caller's intervals. C20.1: every SCPI "
     "command string passed to _query (inline or built in a temporary; literal alternatives expanded) is matched against a command table that "
     "gives the documented limit of each interpolated slot; an element-wise interval analysis with guard refinement (clip, np.clip, "
-    "arange, tile, `(x<a).any() or (x>b).any()`, `x<a or x>b`, `x in TABLE`, `.size > K`, np.split at multiples of K) must prove the "
+    "arange, tile, astype to an integer type = truncation, `(x<a).any() or (x>b).any()`, `x<a or x>b`, `x in TABLE`, `.size > K`, np.split at multiples of K) must prove the "
     "slot's value inside the limit on every path: channel in [1,4] (through _check_channels), frequency [1.5e9,32e9], amplitude [0.3,2], "
     "offset [-2,3], skew +-25e-12, pattern length [2,2^21], PRBS order a member of the table, write-block length <= 1024, read-block "
     "length [1,1024]; the class constants themselves must equal the documented limits. A guard the refinement does not understand refines "
